@@ -71,6 +71,7 @@ type OblResult struct {
 	Kind, Tag, Pos, Result string
 	Model                  map[string]uint64 `json:",omitempty"`
 	Secs                   float64
+	Confirmed              bool // HDL obligations: the model falsifies the obligation under concrete evaluation
 }
 
 type Outcome struct {
